@@ -99,3 +99,25 @@ def explore(make, max_points=4000, stride=1):
     for k in range(0, min(n, max_points), stride):
         fa, fb = make()
         yield (k,) + run_schedule(fa, fb, k)
+
+
+def check_pair(make, judge, k=None):
+    """Run explore() (or the single schedule k) for one pair; judge(k, box_a, box_b) raises on a wrong answer.
+    Returns the number of schedules executed.  A violation carries the preemption point as attribute case_k."""
+    n = 0
+    if k is not None:
+        fa, fb = make()
+        box_a, box_b, _ = run_schedule(fa, fb, k)
+        judge(k, box_a, box_b)
+        return 1
+    for item in explore(make):
+        if item[0] == 'n':
+            continue
+        kk, box_a, box_b, _ = item
+        n += 1
+        try:
+            judge(kk, box_a, box_b)
+        except Exception as v:      # noqa - annotated and passed on
+            v.case_k = kk
+            raise
+    return n
